@@ -67,7 +67,7 @@ pub fn c16(args: Args) {
     };
     let nt = |w: &World| count_ops(w, "delete") > 0 && (count_ops(w, "add_member") + count_ops(w, "set_manager") + count_ops(w, "scope_map")) > 0;
     let hooks = Hooks { after_op: &after, at_end: &end, nontrivial: &nt, dyn_check: false, quiesce: true, verify_sig: Some("c16/server-verify") };
-    let n = args.tier.pick(160, 5000);
+    let n = args.tier.pick(160, 1300);
     run_histories(&mut run, &args, 16, n, &prof, &hooks);
     require_ops(&mut run, &["create", "add_member", "set_manager", "scope_map", "claim_map", "delete", "revive", "repl"]);
     require_rejects(&mut run, &["add_member"]);
@@ -116,7 +116,7 @@ pub fn c17(args: Args) {
     };
     let nt = |w: &World| count_ops(w, "add_member") + count_ops(w, "rem_member") >= 3 && count_ops(w, "delete") + count_ops(w, "revive") > 0;
     let hooks = Hooks { after_op: &after, at_end: &end, nontrivial: &nt, dyn_check: false, quiesce: true, verify_sig: Some("c17/server-verify") };
-    let n = args.tier.pick(160, 5000);
+    let n = args.tier.pick(160, 1300);
     run_histories(&mut run, &args, 17, n, &prof, &hooks);
     // dense: few leaves and few groups, mostly membership edits on one replica, so that direct links
     // are added and removed while another path to the same group exists (memberof unchanged,
@@ -126,7 +126,7 @@ pub fn c17(args: Args) {
         w: Weights { create: 25, add_member: 45, rem_member: 28, delete: 3, revive: 2, set_desc: 2, abort: 1, ..Default::default() },
         replicas_min: 1, replicas_max: 1, ops_min: 25, ops_max: 60, ..prof
     };
-    run_histories(&mut run, &args, 1017, args.tier.pick(120, 4000), &prof_dense, &hooks);
+    run_histories(&mut run, &args, 1017, args.tier.pick(120, 1000), &prof_dense, &hooks);
     require_ops(&mut run, &["create", "add_member", "rem_member", "delete", "revive", "repl"]);
     run.finish();
 }
@@ -144,7 +144,7 @@ pub fn c18(args: Args) {
     let after = |_w: &World, _rec: &LogRec, _s: &SchemaSnap, _acc: &mut Acc| Vec::new();
     let nt = |w: &World| count_ops(w, "dyn_filter") + count_ops(w, "set_desc") > 0 && w.dumps[0].entries.values().any(|e| srv::is_live(e) && srv::dump_classes(e).iter().any(|c| c == "dyngroup") && !mon::uuids_of(e, "dynmember").is_empty() && World::live_uuids(&w.dumps[0]).len() > 0 && srv::dump_strs(e, "name").iter().any(|n| n.starts_with('n')));
     let hooks = Hooks { after_op: &after, at_end: &no_findings, nontrivial: &nt, dyn_check: true, quiesce: false, verify_sig: Some("c18/server-verify") };
-    let n = args.tier.pick(130, 3500);
+    let n = args.tier.pick(130, 1100);
     run_histories(&mut run, &args, 18, n, &prof, &hooks);
     require_ops(&mut run, &["create", "set_desc", "dyn_filter", "delete", "revive", "rename"]);
     run.finish();
@@ -189,7 +189,7 @@ pub fn c19(args: Args) {
     };
     let nt = |w: &World| w.log.iter().any(|l| !l.ok && matches!(l.op, Op::Create { .. } | Op::CreatePair { .. } | Op::Rename { .. })) || w.dumps.iter().any(|d| d.entries.values().any(srv::is_conflict));
     let hooks = Hooks { after_op: &after, at_end: &end, nontrivial: &nt, dyn_check: false, quiesce: true, verify_sig: Some("c19/server-verify") };
-    let n = args.tier.pick(220, 6000);
+    let n = args.tier.pick(220, 1800);
     run_histories(&mut run, &args, 19, n, &prof, &hooks);
     require_ops(&mut run, &["create", "rename", "repl"]);
     require_rejects(&mut run, &["create", "rename"]);
@@ -211,7 +211,7 @@ pub fn c22(args: Args) {
     let after = |w: &World, rec: &LogRec, _s: &SchemaSnap, _acc: &mut Acc| mon::check_spn(&w.dumps[rec.op.target()]);
     let nt = |w: &World| count_ops(w, "rename") > 0 && count_ops(w, "domain_rename") > 0;
     let hooks = Hooks { after_op: &after, at_end: &no_findings, nontrivial: &nt, dyn_check: false, quiesce: false, verify_sig: Some("c22/server-verify") };
-    let n = args.tier.pick(110, 3500);
+    let n = args.tier.pick(110, 900);
     run_histories(&mut run, &args, 22, n, &prof, &hooks);
     // a rename is still a rename when it reaches another server by replication: the same
     // invariant on two replicas with concurrent renames and unrelated edits (no domain rename
@@ -223,7 +223,7 @@ pub fn c22(args: Args) {
     };
     let end2 = |w: &World, _q: bool, _s: &[SchemaSnap], _a: &mut Acc| -> Vec<Finding> { (0..w.n()).flat_map(|i| mon::check_spn(&w.dumps[i])).collect() };
     let hooks2 = Hooks { after_op: &after, at_end: &end2, nontrivial: &|w: &World| count_ops(w, "rename") > 0 && count_ops(w, "repl") > 0, dyn_check: false, quiesce: true, verify_sig: Some("c22/server-verify") };
-    run_histories(&mut run, &args, 1022, args.tier.pick(50, 1500), &prof2, &hooks2);
+    run_histories(&mut run, &args, 1022, args.tier.pick(50, 400), &prof2, &hooks2);
     require_ops(&mut run, &["create", "rename", "domain_rename", "repl"]);
     run.finish();
 }
@@ -254,7 +254,7 @@ pub fn c15(args: Args) {
     };
     let nt = |w: &World| count_ops(w, "schema_attr") > 0 && count_ops(w, "custom_set") > 0 && w.log.iter().any(|l| !l.ok && matches!(l.op, Op::IllFormed { .. }));
     let hooks = Hooks { after_op: &after, at_end: &end, nontrivial: &nt, dyn_check: false, quiesce: true, verify_sig: Some("c15/server-verify") };
-    let n = args.tier.pick(60, 2000);
+    let n = args.tier.pick(60, 500);
     run_histories(&mut run, &args, 15, n, &prof_schema, &hooks);
     run_histories(&mut run, &args, 1015, n, &prof_repl, &hooks);
     require_ops(&mut run, &["create", "schema_attr", "schema_class", "custom_set", "class_remove", "repl"]);
